@@ -153,16 +153,52 @@ def extend(g, api):
         return int(m.group(1))
     g.nat('ncidTokenCheckLen', f'{FR}::Iter::try_next NEW_CONNECTION_ID token length check (+ shape of the two Malformed guards)', ncid_token_len)
 
-    def close_overhead(struct):
+    def close_budget(struct):
+        """the budget expression `let max_len = max_len - N [- self.error_code.size()] [- size(ty)] - size(reason.len())`
+        -> (N, whether the size of the error code is subtracted)"""
         body = strip_comments(fn_body(read(FR), 'encode', after=f'impl {struct} '))
-        m = re.search(r'let\s+max_len\s*=\s*max_len\s*-\s*(\d+)\s*-', body)
+        m = re.search(r'let\s+max_len\s*=\s*max_len((?:\s*-\s*[^;-]+)+);', body)
         if not m:
             raise TranslateError(f'{struct}::encode: max_len arithmetic changed')
+        terms = [re.sub(r'\s+', '', t) for t in re.split(r'\s-\s|(?<=\))-|\n\s*-', ' ' + m.group(1)) if t.strip()]
+        terms = [t.lstrip('-') for t in terms]
+        if not terms or not re.fullmatch(r'\d+', terms[0]):
+            raise TranslateError(f'{struct}::encode: budget does not start with a constant: {terms}')
+        const = int(terms[0])
+        rest = terms[1:]
+        code = 'self.error_code.size()' in rest
+        if code:
+            rest.remove('self.error_code.size()')
+        want = ['VarInt::from_u64(self.reason.len()asu64).unwrap().size()']
+        if struct == 'ConnectionClose':
+            want = ['VarInt::from_u64(ty).unwrap().size()'] + want
+        if rest != want:
+            raise TranslateError(f'{struct}::encode: budget terms {rest}')
         if not re.search(r'let\s+actual_len\s*=\s*self\.reason\.len\(\)\.min\(max_len\)\s*;', body):
             raise TranslateError(f'{struct}::encode: truncation changed')
-        return int(m.group(1))
-    g.nat('closeConnOverhead', f'{FR}::ConnectionClose::encode max_len constant', lambda: close_overhead('ConnectionClose'))
-    g.nat('closeAppOverhead', f'{FR}::ApplicationClose::encode max_len constant', lambda: close_overhead('ApplicationClose'))
+        return const, (1 if code else 0)
+    g.nat('closeConnOverhead', f'{FR}::ConnectionClose::encode budget constant', lambda: close_budget('ConnectionClose')[0])
+    g.nat('closeConnBudgetsCodeSize', f'{FR}::ConnectionClose::encode budget subtracts the size of the error code (1) or not (0)',
+          lambda: close_budget('ConnectionClose')[1])
+    g.nat('closeAppOverhead', f'{FR}::ApplicationClose::encode budget constant', lambda: close_budget('ApplicationClose')[0])
+    g.nat('closeAppBudgetsCodeSize', f'{FR}::ApplicationClose::encode budget subtracts self.error_code.size() (1) or not (0)',
+          lambda: close_budget('ApplicationClose')[1])
+
+    def te_code_max():
+        """largest transport error code the crate itself can construct: the `errors!` table and `Code::crypto(u8)`"""
+        text = strip_comments(read('quinn-proto/src/transport_error.rs'))
+        i = text.rfind('errors! {')
+        if i < 0:
+            raise TranslateError('errors! invocation not found')
+        vals = [int(v, 0) for v in re.findall(r'^\s*[A-Z_0-9]+\((0x[0-9a-fA-F]+|\d+)\)', text[i:], flags=re.M)]
+        body = fn_body(text, 'crypto', after='impl Code')
+        m = re.fullmatch(r'\{\s*Self\((0x[0-9a-fA-F]+)\s*\|\s*u64::from\(code\)\)\s*\}', body.strip())
+        if not vals or not m:
+            raise TranslateError('transport_error.rs: errors! table / Code::crypto changed')
+        if not re.search(r'pub struct Code\(u64\);', text):
+            raise TranslateError('transport_error.rs: Code is no longer a private u64 newtype')
+        return max(vals + [int(m.group(1), 0) | 0xff])
+    g.nat('transportErrorCodeMax', 'quinn-proto/src/transport_error.rs::errors! table and Code::crypto (largest locally constructible code)', te_code_max)
 
     # ------------------------------------------------------------------ transport parameters
     def tp_ids():
